@@ -453,6 +453,7 @@ fn oracles(c: &Case, allow_run: &RunOut, full_bindings: &str, st: &mut Stats, fa
     }
     // ---- closure: compile alone (recursive, no blocklist, types generated)
     if c.recursive && c.block.is_empty() && c.cfg_types {
+        if c.flags.iter().any(|f| f == "--vtable-generation") && allow_run.bindings.contains("__bindgen_vtable {") { st.bump("closure:full-vtable-struct-emitted"); }
         closure_queue.push((allow_run.bindings.clone(), full_bindings.to_owned(), case_json(c)));
     }
 }
